@@ -609,6 +609,9 @@ func checkDecoderPanicsAndLoops(p *core.Program, r *core.Report) {
 	}
 	r.Analysed["decoder_single_value_assertions"] = nAssert
 
+	// a connection that outlives its adapter must not crash the node
+	checkSendsOnClosableChannels(p, r, mtcpPkg)
+
 	// the broadcast connector's reader must not be stoppable by what it receives
 	checkServiceSends(p, r, bbcPkg, "Connector")
 
